@@ -221,6 +221,18 @@ pub fn run(ctx: &'static Ctx) -> (&'static str, Value, Vec<&'static str>) {
             *g = old.merge(st);
         });
         stats = stats.merge(hs.into_inner().unwrap_or_else(|e| e.into_inner()));
+        // the same decodes under the generic dimensions of history_check (one CPU, async executor
+        // contexts, cross-API disturbances, small stack in the stack128 variant)
+        let bodies: Vec<Vec<u8>> = shapes.iter().map(|sh| build(sh).0).collect();
+        let sg = history_check(
+            ctx,
+            "decode_clutter_filter_map",
+            bodies.len(),
+            1,
+            |i| guarded(|| cfm::decode_clutter_filter_map(&mut bodies[i].as_slice()).ok().map(|m| fnv64(format!("{:?}", m).as_bytes()))),
+            |i| format!("map with {} segment(s), zone pattern {}", shapes[i].segments, shapes[i].pattern),
+        );
+        stats = stats.merge(sg);
         use crate::guard::{short_read_check, SplitReader};
         for sh in [Shape { segments: 1, pattern: 1, date: 5, time: 5 }, Shape { segments: 1, pattern: 5, date: 5, time: 5 }] {
             let (bytes, _) = build(&sh);
